@@ -28,7 +28,7 @@ func errFallbackOK(info *types.Info, n ast.Node) bool {
 }
 
 func c35(p *an.Prog, r *an.R, tier string) {
-	r.Explanation = "C35 (structural clauses): zoekt-merge-index's merge and index.Explode report every failure of the calls that make the operation take effect (open, NewIndexFile, Merge/explode, IndexFilePaths, Remove, Rename), and main exits non-zero on any returned error; in merge every removal of an input shard precedes the rename that makes the compound shard visible, in Explode the removal of the compound shard (shard file before its .meta) precedes every rename of an exploded shard; compound and exploded shards are written under .tmp names. Does NOT decide completeness of the merged content (C16) nor kill points inside one rename(2)."
+	r.Explanation = "C35 (structural clauses): zoekt-merge-index's merge and index.Explode report every failure of the calls that make the operation take effect (open, NewIndexFile, Merge/explode, IndexFilePaths, Remove, Rename), and main exits non-zero on any returned error; in merge every removal of an input shard precedes the rename that makes the compound shard visible, in Explode the removal of the compound shard (shard file before its .meta) precedes every rename of an exploded shard; compound and exploded shards are written under .tmp names. Every element of IndexFilePaths' result reaches os.Remove in the removal loop. Does NOT decide completeness of the merged content (C16) nor kill points inside one rename(2)."
 	r.Rule("C35.R1", "error discipline in cmd/zoekt-merge-index.merge, mergeCmd, explodeCmd and index.Explode, index.Merge, index.builderWriteAll: every fallible call's error is tested and propagated; main passes every error to log.Fatal")
 	r.Rule("C35.R2", "no-duplicate ordering: no os.Remove of an input is reachable after the os.Rename that publishes the output, every path to that rename passes the removal loop, and the removal loop walks IndexFilePaths' result forwards (shard before .meta)")
 	r.Rule("C35.R3", "the names handed to builderWriteAll by Merge/explode end in .tmp")
